@@ -957,3 +957,70 @@ func c08OracleFull(c c08Case, obs c08Obs) []hx.Violation {
 }
 
 var _ = utf8.RuneError
+
+// ---- the hide-secret guard ----------------------------------------------------------------------
+
+func c08GuardCases() []any {
+	var out []any
+	for _, dry := range []bool{false, true} {
+		for _, opt := range []string{"", "client", "server", "true", "none", "false", "Client", "bogus"} {
+			for _, hide := range []bool{false, true} {
+				out = append(out, c08Case{Kind: "guard", Tag: "exhaustive", DryRun: dry, DryRunOption: opt, HideSecret: hide})
+			}
+		}
+	}
+	return out
+}
+
+func c08RunGuard(c c08Case, obs *c08Obs) {
+	secret := c08MakeDoc("Secret", "guarded", nil, "", "\n", 0)
+	ch := c08BuildTree([]c08File{c08Join("templates/s.yaml", []c08Doc{secret}, nil, "", "\n")}, nil)
+	cfg := &action.Configuration{Releases: storage.Init(driver.NewMemory()), KubeClient: &kubefake.PrintingKubeClient{Out: io.Discard},
+		Capabilities: chartutil.DefaultCapabilities}
+	inst := action.NewInstall(cfg)
+	inst.Namespace, inst.ReleaseName = "spaced", c08ReleaseName
+	inst.DryRun, inst.DryRunOption, inst.HideSecret = c.DryRun, c.DryRunOption, c.HideSecret
+	rel, err := inst.Run(ch, map[string]interface{}{})
+	if err != nil {
+		obs.ErrText = err.Error()
+		obs.Rejected = strings.Contains(err.Error(), "requires a dry-run mode")
+		if !obs.Rejected {
+			obs.Err = "other"
+		}
+	}
+	if rel != nil {
+		obs.Manifest = []byte(rel.Manifest)
+	}
+	if rs, err := cfg.Releases.ListReleases(); err == nil && len(rs) > 0 {
+		obs.Stored = true
+	}
+}
+
+func c08OracleGuard(c c08Case, obs c08Obs) []hx.Violation {
+	var vs []hx.Violation
+	applied := obs.Stored
+	if applied && bytes.Contains(obs.Manifest, []byte(c08Hidden)) {
+		vs = append(vs, hx.Violation{Sig: "C08:hidden-manifest-applied", What: fmt.Sprintf("guard: a manifest with a suppressed Secret was stored / created (DryRun %v, DryRunOption %q)", c.DryRun, c.DryRunOption)})
+	}
+	if applied && c.HideSecret {
+		vs = append(vs, hx.Violation{Sig: "C08:hidden-manifest-applied", What: fmt.Sprintf("guard: HideSecret is set and the release was stored / created (DryRun %v, DryRunOption %q)", c.DryRun, c.DryRunOption)})
+	}
+	if obs.Err != "" {
+		vs = append(vs, hx.Violation{Sig: "C08:unexpected-error", What: "guard: " + obs.ErrText})
+	}
+	return vs
+}
+
+// c08FullExhaustive: every combination of the flags and post-renderers on the corpus chart
+func c08FullExhaustive() []any {
+	base := c08FullCorpus()[0].(c08Case)
+	var out []any
+	for bits := 0; bits < 32; bits++ {
+		for _, pr := range []string{"", "identity", "reverse", "drop", "alter", "empty", "fail"} {
+			f := c08Full{SubNotes: bits&1 != 0, UseReleaseName: bits&2 != 0, IncludeCRDs: bits&4 != 0, HideSecret: bits&8 != 0,
+				OutputDir: bits&16 != 0, PostRender: pr, Extra: base.Full.Extra}
+			out = append(out, c08Case{Kind: "full", Files: base.Files, Full: &f, Tag: "exhaustive"})
+		}
+	}
+	return out
+}
